@@ -11,12 +11,19 @@ _m(
     "1..num_items+2, start_index in {0, 7} (8 576 configurations); configuration i of the fixed enumeration order is "
     "judged by worker i mod nworkers, so the union over the workers is the whole space.  Plus Hypothesis-drawn larger "
     "cases: n <= 5000, any batch size in 1..n+2 (biased to divisors, n-1, n, n+1, small sizes) or None, any float "
-    "val_ratio in [0, 1) (biased to k/n, 1/k, 1-1/k), any 31-bit seed passed as int or as Generator; num_items <= 100 000.  Part 2 (Hypothesis, tiny "
+    "val_ratio in [0, 1) (biased to k/n, 1/k, 1-1/k), seeds from {31-bit, 2**31-1, 2**32-1, 2**32, 2**32+17, 14-digit "
+    "timestamps, 2**63-1, 2**64-1, any 64-bit} passed as int or as Generator; num_items <= 100 000.  Part 2 (Hypothesis, tiny "
     "Ptychography problems built through the public constructors from random positive intensities): roi 3..7 per axis, "
     "scan grid 2..5 per axis (J = 4..25 patterns), 1-2 slices, 1-2 probe modes, complex / pure_phase / potential object, "
     "padding 0..3, float32 or float64 configuration, the five loss types, val_ratio 0 or in {0.1 .. 0.75} with grid or "
     "random split, optimised models {object, probe, dataset} subsets.  invariance cases compare EVERY divisor b of the "
-    "number of training patterns with the single full batch; determinism cases draw optimiser (adam/adamw/sgd), lr, "
+    "number of training patterns with the single full batch; about half of them run with ACTIVE soft constraints "
+    "(object tv_weight_xy / tv_weight_z / surface_zero_weight, probe tv_weight, dataset descan_tv_weight with "
+    "non-constant descan shifts; weights 0.5-5, 1-3 slices, random non-uniform object) passed through "
+    "reconstruct(constraints=...).  determinism cases draw the seed from the large-seed set above (about half are >= "
+    "2**32) given to every model as int or as a fresh np.random.default_rng(seed), and compare three histories: fresh "
+    "instance WITHOUT reset, second fresh instance (first call with or without reset=True), first instance after "
+    "reconstruct(reset=True); they draw optimiser (adam/adamw/sgd), lr, "
     "scheduler (none/exp), 2-3 epochs, batch_size in 1..J+2 or None, first call with/without reset, re-run with/without "
     "re-passing optimizer_params.  A case is NON-TRIVIAL when: batcher - the batch size does not divide n or "
     "val_ratio > 0; split - the items cannot be split evenly (num_batches does not divide num_items, or max_batch < "
@@ -49,6 +56,13 @@ _m(
         "differences at dark pixels - the float32 full-batch gradient is itself 5e-5 from the float64 one in the worst "
         "case, kept as a passing replay).  Batch-fraction scaling errors are >= 1/2.  Determinism is compared bit-for-bit "
         "(float.hex), valid because the runner pins torch to one thread",
+        "soft constraints: on the clean tree reconstruct adds the parameter-only soft-constraint loss C to EVERY batch "
+        "loss unscaled and reports sum(batch losses)/num_batches, so with frozen parameters the reported epoch loss is "
+        "mean(consistency) + C at every batch size (verified: equal to 1e-16 in float64 for each soft term); the same loss "
+        "and gradient tolerances are applied to the reported loss including C",
+        "seed forms: non-negative Python ints of any size and freshly constructed np.random.default_rng(int) objects (what "
+        "the RNGMixin / SimpleBatcher setters accept and can re-seed from); already-consumed or spawned generators, "
+        "floats and negative seeds are outside the domain",
         "every invariance run starts from reconstruct(reset=True); the full batch is run twice first and must agree "
         "bit-for-bit (the property's own reset claim), otherwise that is what is reported",
         "reconstruct(batch_size=None) keeps the instance's current batch size (initially all patterns): the invariance "
